@@ -223,6 +223,33 @@ func propC12(c model.Case) hh.Verdict {
 			return hh.Fail("Preprocess n%d returned an error %d times but only %d issues wrap it", id, calls, refused)
 		}
 	}
+	// every Preprocess type mismatch / error the input implies must be reported, at its path
+	if c.Exec.Mode == "parse" {
+		plain := model.RoundTrip(*c.Root)
+		plain.Walk(func(n *model.Node) { n.Posts = nil })
+		plain.Number()
+		if spec := model.Spec(&plain, model.SpecCfg{Mode: "parse"}, in, reflect.New(typ).Elem()); spec.Unknown == "" {
+			want := map[string]int{}
+			for _, d := range spec.Detailed {
+				if d.Node.Kind == model.KPre {
+					want[d.Path+"|"+d.Code]++
+				}
+			}
+			got := map[string]int{}
+			for _, is := range all {
+				if is.Err != nil && strings.Contains(is.Err.Error(), "preprocess") {
+					got[is.Path+"|"+is.Code]++
+				}
+			}
+			for k, n := range want {
+				if got[k] != n {
+					preFail = true
+					return hh.Fail("the input implies %d Preprocess issue(s) %q (type mismatch: coerce, function error: empty code) but %d were reported; all issues: %s", n, k, got[k], fmtIss(res.Norm(false)))
+				}
+				preFail = true
+			}
+		}
+	}
 	v := hh.Verdict{Classes: append(shapeClasses(c.Root), "mode:"+c.Exec.Mode)}
 	if nested {
 		v.Classes = append(v.Classes, "callback-under-slice-or-ptr")
